@@ -1,5 +1,5 @@
 """What MANIFEST.json claims, per property (bin/mkmanifest.py turns this into MANIFEST.json)."""
-HOOK_COMMITS = []
+HOOK_COMMITS = ["49d5577", "152da9a"]
 NOTES = ("Every check: TLC model-checks the subsystem specification (exhaustive within the bounds reported in the evidence), "
          "the behaviours TLC emits are replayed into the real code built from /repo's working tree with -tags verif, and the recorded "
          "traces are validated by TLC against the trace specification; verdicts come only from that last step. "
@@ -14,5 +14,37 @@ CLAIMS = {
          "logged step against the reference functions; plus seeded long histories (bursts, equal payloads, k over the int range).",
     note="Trusted: TLC, the harness projection of queue entries to (id, payload tag), clamping of k to +-10^6 in the log. "
          "Exhaustive only within the stated bounds; beyond them seeded random histories.",
+    technique=TECH),
+ "C19": dict(
+    text="Backoff.tla gives the reference delay min(cap, base*factor^n) with saturating arithmetic and the three entry points "
+         "(stateful wait, reset, stateless query). TLC checks boundedness, monotonicity and statelessness for every operation history "
+         "up to the bound over a parameter grid (defaults, degenerate and large values; n up to 2^31-2), emits every history, the "
+         "harness drives the real backoff through the verif exports and TLC validates every returned duration against Allowed(); "
+         "plus seeded long histories with wide-range parameters and attempt numbers up to 2^63.",
+    note="Trusted: TLC, millisecond projection of time.Duration, clamping of n to 2*10^9 in the log. Jitter is checked as an interval, "
+         "not as a distribution. wait() itself (the sleep) is not timed.",
+    technique=TECH),
+ "C15": dict(
+    text="Jid.tla defines Parse/Full/Bare over strings abstracted to character classes; TLC proves the round-trip theorems for every "
+         "class string up to the bound and emits each; the harness concretises every class string several times (ASCII, non-ASCII, "
+         "all Unicode space kinds, every forbidden character), runs NewJid/Full/Bare and TLC compares acceptance, the three parts and "
+         "the re-parsed renderings with the reference.",
+    note="Trusted: TLC, the rune->class table of the harness. Not asserted (as the property says): '/' before the first '@'; "
+         "also not asserted: ' \" : < > inside a domain (the statement names no forbidden set for domains).",
+    technique=TECH),
+ "C20": dict(
+    text="Address.tla enumerates every address form (scheme x host form incl. all IPv6 shapes x brackets x port x client/component) with "
+         "the expected observable result; each form is concretised with seeded literals (boundary ports, every port in the thorough "
+         "tier) through NewClientTransport/NewComponentTransport and TLC checks transport kind, dialability, kept host and port.",
+    note="Trusted: TLC, net.SplitHostPort and host string equality computed in the harness. Bare IPv6 followed by :port, other URL "
+         "schemes and port 0 are not asserted. DNS SRV lookup in NewClient and cert_checker.go are not driven.",
+    technique=TECH),
+ "C06": dict(
+    text="Router.tla defines Matches/FirstMatch/Result; TLC checks the routing theorems (at most one handler, later routes ignored, "
+         "empty route catches all, reply only for unhandled requests) for ALL tables up to 2 routes over the matcher alphabet x all "
+         "packets, emits each pair; the harness builds the real Router through the public builder API, decodes the packet from wire "
+         "XML with the library parser, calls route() and TLC compares invoked handlers and replies; plus seeded tables up to 6 routes.",
+    note="Trusted: TLC, the harness's XML scan of replies. Not asserted: namespace matchers vs unregistered payloads, upper-case "
+         "namespaces. Routing through a live connection is covered by C05.",
     technique=TECH),
 }
